@@ -19,7 +19,10 @@ rundemo() {
     cp "$src/demo_test.go" "$d/repo/$pkgdir/zz_seed_demo_test.go"
     # the tests of the demonstration file, by name (not every agent calls them Demo... / Seed...)
     pat=$(grep -oE '^func (Test[A-Za-z0-9_]+)' "$src/demo_test.go" | sed 's/^func //' | paste -sd'|')
-    timeout 900 go test -count=1 -run "^(${pat:-Demo|Seed})\$" "./$pkgdir/" > "$d/demo.log" 2>&1; rc=$?
+    # in a private network namespace: demonstrations of different seeds use the same fixed ports (8654 ...)
+    # and several confirmations run at the same time
+    go test -c -o "$d/demo.test" "./$pkgdir/" > "$d/demo.log" 2>&1 && \
+      unshare -n sh -c ". /verif/tools/netns.sh; cd $d/repo/$pkgdir && timeout 900 $d/demo.test -test.count=1 -test.run '^(${pat:-Demo|Seed})\$'" >> "$d/demo.log" 2>&1; rc=$?
     grep -q "no tests to run" "$d/demo.log" && rc=98
     rm -f "$d/repo/$pkgdir/zz_seed_demo_test.go"
   elif [ -f "$src/demo/main.go" ]; then
